@@ -1,5 +1,10 @@
 pub mod common;
+pub mod c01;
 pub mod c02;
+pub mod c03;
+pub mod c04;
+pub mod c05;
+pub mod c06;
 
 use crate::engine::Ctx;
 use common::AnySub;
@@ -21,6 +26,11 @@ pub const COMMON_ASSUMPTIONS: &[&str] = &[
 
 pub fn registry() -> Vec<Prop> {
     vec![
+        Prop { id: "C01", rule: c01::RULE, subs: c01::subs, assumptions: &[], extra: None },
         Prop { id: "C02", rule: c02::RULE, subs: c02::subs, assumptions: &[], extra: None },
+        Prop { id: "C03", rule: c03::RULE, subs: c03::subs, assumptions: &[], extra: None },
+        Prop { id: "C04", rule: c04::RULE, subs: c04::subs, assumptions: &[], extra: None },
+        Prop { id: "C05", rule: c05::RULE, subs: c05::subs, assumptions: &[], extra: None },
+        Prop { id: "C06", rule: c06::RULE, subs: c06::subs, assumptions: &[], extra: None },
     ]
 }
